@@ -55,6 +55,11 @@ impl<T> Stream for ScriptStream<T> {
             Some(SrcStep::Err(s)) => Poll::Ready(Some(Err(s))),
         }
     }
+    /// exact, like an iterator-backed stream: the number of items still to come
+    fn size_hint(&self) -> (usize, Option<usize>) {
+        let n = self.steps.iter().filter(|s| !matches!(s, SrcStep::Pending)).count();
+        (n, Some(n))
+    }
 }
 
 #[derive(Debug, Clone)]
